@@ -488,7 +488,6 @@ func init() {
 	vRegister("C04", "c04.enum", checkC04Enum)
 }
 
-
 // ---------------------------------------------------------------------------
 // bulk: hundreds of thousands of pairwise different entry lines in one file. Anything keyed by a short digest of a line
 // or a name (a memo, an interning table) meets its first collisions at this size; the oracle is the construction.
@@ -595,7 +594,9 @@ func TestVerifC04Bulk(t *testing.T) {
 	lines := 400000
 	vEnum(t, "C04", "c04.bulk",
 		"files of 400 000 pairwise different entry lines (names of 1-3 path segments, values k/2) under 10 000 headings, built from a seed; every record, name and value compared with the construction",
-		fmt.Sprintf("%d files", n), n, func(i int) c04BulkCase { return c04BulkCase{Seed: uint64(vSeedBase)*1000003 + uint64(i)*7919 + 1, Lines: lines, IsLog: i%4 == 3} }, checkC04Bulk)
+		fmt.Sprintf("%d files", n), n, func(i int) c04BulkCase {
+			return c04BulkCase{Seed: uint64(vSeedBase)*1000003 + uint64(i)*7919 + 1, Lines: lines, IsLog: i%4 == 3}
+		}, checkC04Bulk)
 }
 
 func TestVerifC04Random(t *testing.T) {
